@@ -46,8 +46,34 @@ def classify(case, rej, events):
     return None
 
 
+XMODE = [
+    {"fmt": 3, "n": 3, "a": ("cal", 2020, 2, 28), "d": {"d": 1}}, {"fmt": 4, "n": 3, "a": ("cal", 2020, 3, 1), "d": {"d": 1}},
+    {"fmt": 1, "n": 3, "a": ("cal", 2020, 2, 28), "s": ("cal", 2020, 2, 29)}, {"fmt": 3, "n": 4, "a": ("cal", 2019, 12, 30), "d": {"d": 1}},
+    {"fmt": 3, "n": 5, "a": ("ord", 2020, 364, 0), "d": {"d": 1}}, {"fmt": 3, "n": 3, "a": ("cal", 2019, 12, 31), "d": {"mo": 2}},
+    {"fmt": 3, "n": 0, "a": ("cal", 2020, 2, 27), "d": {"d": 1}}, {"fmt": 4, "n": 0, "a": ("cal", 2020, 3, 2), "d": {"d": 1}},
+    {"fmt": 3, "n": 3, "a": ("cal", 2100, 2, 28), "d": {"h": 12}}, {"fmt": 3, "n": 2, "a": ("cal", 2020, 1, 30), "d": {"mo": 1}},
+]
+
+
 def expand(job):
     rnd = random.Random(job["seed"])
+    if job.get("kind") == "xmode":       # the same recurrence TEXTS under every mode in turn, through one parser object
+        from harness.common import SPELLINGS, tp_rec
+        for _round in range(job["rounds"]):
+            for x in XMODE:
+                for sp in rnd.sample(SPELLINGS, len(SPELLINGS)):
+                    d = {"fmt": x["fmt"], "n": x["n"], "a": tp_rec(x["a"][0], x["a"][1], x["a"][2], x["a"][3]), "via": "parse"}
+                    if "s" in x:
+                        d["s"] = tp_rec(x["s"][0], x["s"][1], x["s"][2], x["s"][3])
+                    else:
+                        d["d"] = dict(x["d"])
+                    m = MEANING[sp]
+                    from harness import refcal as R
+                    ok = all((p_[0] != "cal" or p_[3] <= R.dim(m, p_[1], p_[2])) and (p_[0] != "ord" or p_[2] <= R.diy(m, p_[1]))
+                             for p_ in [x["a"]] + ([x["s"]] if "s" in x else []))
+                    if ok:
+                        yield {"mode": sp, "rec": d}
+        return
     for _ in range(job["n"]):
         sp = gen.spelling(rnd)
         m = MEANING[sp]
@@ -67,5 +93,5 @@ def expand(job):
 
 def jobs(tier, seed):
     if tier == "quick":
-        return [{"n": 300, "seed": seed * 100 + j} for j in range(16)]
-    return [{"n": 4000, "seed": seed * 1000 + j} for j in range(32)]
+        return [{"n": 300, "seed": seed * 100 + j} for j in range(15)] + [{"kind": "xmode", "rounds": 2, "seed": seed}]
+    return [{"n": 4000, "seed": seed * 1000 + j} for j in range(30)] + [{"kind": "xmode", "rounds": 6, "seed": seed + j} for j in range(2)]
